@@ -132,14 +132,62 @@ class FnTaint(object):
     self.seqvars = set()
     self.setlists = set()     # lists whose elements are sets (factors of itertools.product)
     self.sorted_lists = set()
+    # Flow-sensitivity per local: taint is recorded per *definition* (name, cfg node id); a use is
+    # tainted when a tainted definition can reach it. A name rebound later to something else (or
+    # reused for an unrelated value) does not inherit the earlier value's taint.
+    self.setdefs = set()
+    self.seqdefs = set()
+    self._res = None
+    self._where = None
     self._solve()
+
+  # ---- where is a Name evaluated / which definitions reach it ------------------------------
+  def _locate(self):
+    if self._where is None:
+      from .rules._h_F import res_of
+      self._res = res_of(self.fn.world, self.fn)
+      self._where = {}
+      self._stmt_node = {}
+      for n in self._res.cfg.nodes:
+        if n.stmt is not None:
+          self._stmt_node.setdefault(id(n.stmt), n.id)
+        for e in n.exprs:
+          for x in ast.walk(e):
+            if isinstance(x, ast.Name):
+              self._where.setdefault(id(x), n.id)
+    return self._where
+
+  def _reaching_defs(self, name_node):
+    """ids of the definitions of a Name that reach its use, or None when unknown (parameter,
+    closure, nested scope): the caller falls back to the flow-insensitive answer."""
+    nid = self._locate().get(id(name_node))
+    if nid is None:
+      return None
+    r = self._res
+    if name_node.id in r.params and not r.defs.get(name_node.id):
+      return None
+    defs, entry = r.reaching(nid, name_node.id)
+    if not defs:
+      return None
+    return defs
+
+  def _name_in(self, name_node, flat, perdef):
+    if name_node.id not in flat:
+      return False
+    defs = self._reaching_defs(name_node)
+    if defs is None:
+      return True
+    tainted = {d for (nm, d) in perdef if nm == name_node.id}
+    if not tainted:
+      return True          # tainted by accumulation only (no defining statement recorded)
+    return bool(defs & tainted)
 
   # ---- expression classification -----------------------------------------------------
   def is_set(self, e):
     if isinstance(e, (ast.Set, ast.SetComp)):
       return True
     if isinstance(e, ast.Name):
-      return e.id in self.setvars
+      return self._name_in(e, self.setvars, self.setdefs)
     if isinstance(e, ast.Attribute):
       t = self.fn.type_of(e)
       return bool(t) and t.startswith(("set:", "set["))
@@ -168,7 +216,7 @@ class FnTaint(object):
   def is_seq(self, e):
     """Order-tainted sequence/dict/generator."""
     if isinstance(e, ast.Name):
-      return e.id in self.seqvars and e.id not in self.sorted_lists
+      return e.id not in self.sorted_lists and self._name_in(e, self.seqvars, self.seqdefs)
     if isinstance(e, (ast.ListComp, ast.GeneratorExp, ast.DictComp)):
       return any(self.unordered(g.iter) for g in e.generators)
     if isinstance(e, ast.Call):
@@ -227,7 +275,7 @@ class FnTaint(object):
           if isinstance(n, ast.Assign):
             for t in n.targets:
               if isinstance(t, ast.Name):
-                changed |= self._bind(t.id, n.value)
+                changed |= self._bind(t.id, n.value, n)
           elif isinstance(n, ast.Call) and isinstance(n.func, ast.Attribute) and \
               n.func.attr == "append" and isinstance(n.func.value, ast.Name) and n.args and \
               self.is_set(n.args[0]):
@@ -244,6 +292,7 @@ class FnTaint(object):
                   tgt = self._accumulated(m)
                   if tgt and tgt not in self.setvars:
                     changed |= self._add(self.seqvars, tgt)
+                    changed |= self._taint_object(tgt, b)
 
   def _accumulated(self, m):
     """Name of a local list/dict that statement/expression m grows in iteration order."""
@@ -265,12 +314,33 @@ class FnTaint(object):
       return m.target.id
     return None
 
-  def _bind(self, name, value):
+  def _bind(self, name, value, stmt=None):
+    self._locate()
+    nid = self._stmt_node.get(id(stmt)) if stmt is not None else None
     if self.is_set(value):
-      return self._add(self.setvars, name)
+      ch = self._add(self.setvars, name)
+      if nid is not None:
+        ch |= self._add(self.setdefs, (name, nid))
+      return ch
     if self.is_seq(value):
-      return self._add(self.seqvars, name)
+      ch = self._add(self.seqvars, name)
+      if nid is not None:
+        ch |= self._add(self.seqdefs, (name, nid))
+      return ch
     return False
+
+  def _taint_object(self, name, stmt):
+    """A list/dict grown in unordered iteration order inside statement `stmt`: every definition
+    of the name that reaches the growing statement denotes a tainted object."""
+    self._locate()
+    nid = self._stmt_node.get(id(stmt))
+    if nid is None:
+      return False
+    defs, entry = self._res.reaching(nid, name)
+    ch = False
+    for d in defs:
+      ch |= self._add(self.seqdefs, (name, d))
+    return ch
 
   @staticmethod
   def _add(s, x):
